@@ -698,6 +698,21 @@ func runRange(c *core.Ctx) {
 						ok, msg = false, "returns a computed value"
 					}
 				}
+			case *ssa.BinOp:
+				// `return start == size`
+				good := false
+				if v.Op == token.EQL {
+					for _, pair := range [][2]ssa.Value{{v.X, v.Y}, {v.Y, v.X}} {
+						if pair[0] == ssa.Value(sizeParam) {
+							if pc, idx := an.CallOf(pair[1]); pc != nil && idx == 0 && (an.IsFunc(pc, "strconv", "ParseInt") || an.IsFunc(pc, "strconv", "ParseUint") || an.IsFunc(pc, "strconv", "Atoi")) {
+								good = true
+							}
+						}
+					}
+				}
+				if !good {
+					ok, msg = false, "returns a computed value that is not the equality of the parsed start and the size"
+				}
 			default:
 				ok, msg = false, "returns a computed value"
 			}
